@@ -28,7 +28,7 @@ Fixpoint desc_v (k:json -> trace) (first last:nat) (level:nat) (v:json) {struct 
 Definition descend (k:json -> trace) (vs:list json) (level first last:nat) : trace :=
   if (last <? level)%nat then tnil else tbind_list vs (desc_v k first last level).
 
-Definition hard (e:option err) : option err := match e with Some (EHard n) => Some (EHard n) | _ => None end.
+Definition hard (e:option err) : option err := match e with Some (EVerbose _) => None | x => x end.
 
 Fixpoint sem_step (s:step) (k:bool -> json -> trace) (c:json) (ig u:bool) (v:json) {struct s} : trace :=
   match s with
